@@ -278,6 +278,7 @@ Inductive wop :=
 | WFinish (pi i : nat) (last : bytes) (wr : wres) (e1 e2 : ev)
      (* reaped, not "too quickly": STOPPED is e1 when stopping; otherwise
         (RUNNING is e1 if it was still STARTING and) EXITED is e2 *)
+| WStopFail (pi i : nat) (e1 e2 : ev)               (* stop() whose signal fails: STOPPING (e1) then UNKNOWN (e2) *)
 | WDispatch (pi : nat) (wss : list (list wres))     (* pool.dispatch() *)
 | WTransition (pi : nat) (wss : list (list wres)).  (* pool.transition(): dispatch if a listener is RUNNING+READY *)
 
@@ -286,6 +287,19 @@ Definition dispatch_capable (p : pool) : bool :=
 
 Definition seq (r : world * list weff) (f : world -> world * list weff) : world * list weff :=
   let '(w1, o1) := r in let '(w2, o2) := f w1 in (w2, o1 ++ o2).
+
+(* finish(): the notifications of change_state, depending on the state the
+   process was in.  Process state UNKNOWN (it could not be signalled): no state
+   change, no notification. *)
+Definition finish_emits (w : world) (st : pstate) (killing : bool) (e1 e2 : ev) : world * list weff :=
+  if pstate_eqb st PS_UNKNOWN then (w, [])
+  else if killing then emit w e1 T_ProcessStateStoppedEvent
+  else if pstate_eqb st PS_STARTING then
+    seq (emit w e1 T_ProcessStateRunningEvent) (fun w' => emit w' e2 T_ProcessStateExitedEvent)
+  else emit w e2 T_ProcessStateExitedEvent.
+
+Definition finish_state (st : pstate) (killing : bool) : pstate :=
+  if pstate_eqb st PS_UNKNOWN then PS_UNKNOWN else if killing then PS_STOPPED else PS_EXITED.
 
 Definition wstep (w : world) (op : wop) : world * list weff :=
   match op with
@@ -343,7 +357,8 @@ Definition wstep (w : world) (op : wop) : world * list weff :=
     | Some (_, q) =>
       let st := p_state q in
       let ok := negb (p_pid q =? 0) &&
-                (if p_killing q then pstate_eqb st PS_STOPPING
+                (if pstate_eqb st PS_UNKNOWN then true
+                 else if p_killing q then pstate_eqb st PS_STOPPING
                  else pstate_eqb st PS_RUNNING || pstate_eqb st PS_STARTING) in
       if negb ok then (w, [EInapplicable])
       else
@@ -356,14 +371,9 @@ Definition wstep (w : world) (op : wop) : world * list weff :=
         | (q2, _) =>
           let w2 := set_proc w1 pi i q2 in
           (* change_state: the process object is still alive while it notifies *)
-          let '(w3, f3) :=
-            if p_killing q then emit w2 e1 T_ProcessStateStoppedEvent
-            else if pstate_eqb st PS_STARTING then
-              seq (emit w2 e1 T_ProcessStateRunningEvent) (fun w' => emit w' e2 T_ProcessStateExitedEvent)
-            else emit w2 e2 T_ProcessStateExitedEvent in
-          let st' := if p_killing q then PS_STOPPED else PS_EXITED in
+          let '(w3, f3) := finish_emits w2 st (p_killing q) e1 e2 in
           let l2 := p_l q2 in
-          let q3 := mkP st' 0 false (mkL (l_state l2) [] None [] None true) false [] true
+          let q3 := mkP (finish_state st (p_killing q)) 0 false (mkL (l_state l2) [] None [] None true) false [] true
                         (p_accepted q2) (p_broken q2) (p_envs q2) in
           let w4 := set_proc w3 pi i q3 in
           match l_event l2 with
@@ -372,6 +382,17 @@ Definition wstep (w : world) (op : wop) : world * list weff :=
           | None => (w4, f1 ++ f3)
           end
         end
+    end
+  | WStopFail pi i e1 e2 =>
+    match get_proc w pi i with
+    | None => (w, [EInapplicable])
+    | Some (_, q) =>
+      match proc_step h maxdig i q PStopFail with
+      | (_, SInapplicable :: _) => (w, [EInapplicable])
+      | (q', _) =>
+        seq (emit (set_proc w pi i q') e1 T_ProcessStateStoppingEvent)
+            (fun w' => emit w' e2 T_ProcessStateUnknownEvent)
+      end
     end
   | WDispatch pi wss => dispatch w pi wss
   | WTransition pi wss =>
